@@ -327,7 +327,8 @@ pub fn parent_main(engine: &dyn CaseEngine, args: &Args) -> Report {
                     let frames: Vec<String> = gdb_frames(c.proc.id())
                         .into_iter()
                         .map(|f| f.split('<').next().unwrap_or("").trim_end_matches("::").to_string())
-                        .filter(|f| f.contains("agdb::") || f.contains("vcore::") || f.contains("dbh::"))
+                        // the storage wrapper sits between two layers of agdb: transparent for "whose code is running"
+                        .filter(|f| (f.contains("agdb::") || f.contains("vcore::") || f.contains("dbh::")) && !f.contains("vcore::wrap::"))
                         .collect();
                     c.hang = Some((c.last_p.clone(), frames, cpu_stuck));
                     c.killed_by_watchdog = true;
@@ -418,7 +419,10 @@ pub fn parent_main(engine: &dyn CaseEngine, args: &Args) -> Report {
                     rep.inconclusive(&detail);
                 }
                 rep.count("worker_deaths");
-                deaths += 1;
+                if !killed_by_watchdog {
+                    // stuck cases have their own bound
+                    deaths += 1;
+                }
                 // the case was explored up to the point where the worker died (what the worker had counted since its last
                 // report is lost with it)
                 rep.evaluations += 1;
